@@ -223,6 +223,7 @@ func (e *prodEngine) Count(prop, tier string, seed int64) int {
 	if prop == "C18" {
 		n += consInterceptorCases(tier)
 	}
+	n += reuseCases(prop, tier)
 	return n
 }
 
@@ -479,6 +480,9 @@ func (e *prodEngine) Run(prop, tier string, seed int64, idx int) proto.Rec {
 		k := idx - len(core) - len(directedCases(prop, tier))
 		if prop == "C18" && k >= randomCount(prop, tier) {
 			return runConsInterceptorCase(prop, tier, seed, k-randomCount(prop, tier), idx)
+		}
+		if reuseCases(prop, tier) > 0 && k >= randomCount(prop, tier) {
+			return runReuseCase(prop, tier, seed, k-randomCount(prop, tier), idx)
 		}
 		rng := rand.New(rand.NewSource(proto.SubSeed(seed, idx, "prod"+prop)))
 		switch prop {
